@@ -1,10 +1,16 @@
 #!/usr/bin/env python3
-"""usage: tools/seed_rerow.py <ID>-<k> ...   re-runs the named seeded changes (tools/seedtest.sh, scratch copy of /repo)
-and replaces their rows in seeded/RESULTS.md, then recomputes the totals line."""
+"""usage: tools/seed_rerow.py [--jobs=N] <ID>-<k> ...   re-runs the named seeded changes (tools/seedtest.sh, scratch copy
+of /repo), replaces (or adds) their rows in seeded/RESULTS.md, then recomputes the totals line."""
 import sys, re, json, subprocess
+from concurrent.futures import ThreadPoolExecutor
 path = "/verif/seeded/RESULTS.md"
-lines = open(path).read().split("\n")
-for s in sys.argv[1:]:
+args = sys.argv[1:]
+jobs = 1
+if args and args[0].startswith("--jobs="):
+    jobs = int(args[0].split("=")[1]); args = args[1:]
+
+
+def one(s):
     pid = s.rsplit("-", 1)[0]
     r = subprocess.run(["/verif/tools/seedtest.sh", "/verif/seeded/%s/patch.diff" % s, pid], capture_output=True, text=True).stdout
     if "patch does not apply" in r:
@@ -19,18 +25,24 @@ for s in sys.argv[1:]:
         v = "?"
     needs = json.load(open("/verif/seeded/%s/meta.json" % s)).get("needs", "").replace("|", "/").replace("\n", " ")[:170]
     det = ([l for l in r.split("\n") if re.search(r"\] (ok|FAIL)", l)] or [""])[-1][:80]
-    row = "| %s | %s | %s | %s |" % (s, needs, v, det)
-    for i, l in enumerate(lines):
-        if l.startswith("| %s |" % s):
-            lines[i] = row
-            break
-    else:
-        raise SystemExit("no row for " + s)
-    print(s, v)
-rows = [l for l in lines if re.match(r"\| C\d\d-\d+ \|", l)]
+    print(s, v, flush=True)
+    return s, "| %s | %s | %s | %s |" % (s, needs, v, det)
+
+
+with ThreadPoolExecutor(jobs) as ex:
+    rows_new = dict(ex.map(one, args))
+lines = open(path).read().split("\n")
+isrow = lambda l: re.match(r"\| (C\d\d)-(\d+) \|", l)
+rows = {isrow(l).group(0)[2:-2]: l for l in lines if isrow(l)}
+rows.update(rows_new)
+first = next(i for i, l in enumerate(lines) if isrow(l))
+last = max(i for i, l in enumerate(lines) if isrow(l))
+key = lambda s: (s.split("-")[0], int(s.split("-")[1]))
+body = [rows[s] for s in sorted(rows, key=key)]
+lines[first:last + 1] = body
 tot = "Totals: %d caught, %d abstract, %d missed, %d stale, of %d." % (
-    sum("| caught |" in l for l in rows), sum("| abstract |" in l for l in rows), sum("missed" in l.split("|")[3] for l in rows),
-    sum("stale-patch" in l for l in rows), len(rows))
+    sum("| caught |" in l for l in body), sum("| abstract |" in l for l in body), sum("missed" in l.split("|")[3] for l in body),
+    sum("stale-patch" in l for l in body), len(body))
 lines = [tot if l.startswith("Totals:") else l for l in lines]
 open(path, "w").write("\n".join(lines))
 print(tot)
